@@ -665,6 +665,10 @@ hwloc_backend_synthetic_init(struct hwloc_synthetic_backend_data_s *data,
     data->level[count-1].arity = (unsigned)item;
     count++;
   }
+  /* the last level has no children (its arity is still uninitialized if the string ends right after it),
+   * the levels are walked until arity 0 when processing indexes below
+   */
+  data->level[count-1].arity = 0;
 
   if (data->level[count-1].attr.type != HWLOC_OBJ_TYPE_NONE && data->level[count-1].attr.type != HWLOC_OBJ_PU) {
     if (verbose)
